@@ -7,6 +7,7 @@ expected = the least model of the explicit program, computed inside Coq by Engin
 also run : the explicit program through the real macro (must equal the oracle as well).
 The tagged relation's own Vec is a FakeVec (always empty): the relation is observed through ordinary relations
 populated by rules that read it (the property's `observe_at`)."""
+import itertools
 import json
 import os
 
@@ -325,7 +326,238 @@ def compare(r):
     return mism
 
 
+# ------------------------------------------------------------------ family "multi": rules under the empty-relation shortcut
+#
+# compile_mir_rule (ascent_codegen.rs) wraps a rule in `if !(r1.is_empty() || r2.is_empty() || ..) { .. }` exactly when
+# it has more than one body clause and is not a plain two-clause simple join.  The readers of gen_program are all
+# two-clause simple joins (or single clauses): RelIndexRead::is_empty of the provider's views was never consulted.
+# Here every rule that reads the tagged relation has >= 3 body clauses, or 2 clauses that are not a simple join
+# (a standalone if / let / for item between or before them, a let attached to the first clause, a repeated variable
+# in the second), with the tagged clause at any position and every subset of its columns bound; inside the
+# recursive stratum (total and delta versions are asked) and after it.  The inputs (gen_input_heavy) have MANY keys
+# sharing FEW node values, the regime in which size heuristics of the keyed views (len_estimate) are furthest off.
+
+def index_columns(body, j):
+    """columns of the clause body[j] the macro's index is keyed on: constants, variables bound by earlier items,
+    repeated occurrences excluded; for the first clause of a simple join the columns shared with the second"""
+    bound = set()
+    for it in body[:j]:
+        if it[0] == "clause":
+            bound |= set(clause_vars(it))
+            for cd in it[3]:
+                if cd[0] in ("let", "iflet", "letc"):
+                    bound.add(cd[1])
+        elif it[0] == "cond" and it[1][0] in ("let", "iflet", "letc"):
+            bound.add(it[1][1])
+        elif it[0] == "gen":
+            bound.add(it[1])
+    it = body[j]
+    clause_idx = [i for i, b in enumerate(body) if b[0] == "clause"]
+    if clause_idx and clause_idx[0] == j and j + 1 < len(body) and body[j + 1][0] == "clause" and not bound:
+        nxt = body[j + 1]
+        vs = clause_vars(nxt)
+        simple = len(vs) == len(set(vs)) and not any(cd[0] in ("let", "iflet") for cd in it[3])
+        if simple:
+            bound = set(vs)
+    return [c for c, t in enumerate(it[2]) if t[0] == "c" or (t[0] == "v" and t[1] in bound)]
+
+
+def shortcut_applies(body):
+    """does compile_mir_rule emit the any-relation-empty shortcut for this body (see the comment above)"""
+    cl = [i for i, b in enumerate(body) if b[0] == "clause"]
+    if len(cl) <= 1:
+        return False
+    if len(cl) > 2:
+        return True
+    i, j = cl
+    if j != i + 1:
+        return True
+    vs = clause_vars(body[j])
+    simple = len(vs) == len(set(vs)) and not any(cd[0] in ("let", "iflet") for cd in body[i][3])
+    for cd in body[j][3]:
+        used = set(cd[2] if cd[0] == "if" else cd[3])
+        if not used <= set(vs):
+            simple = False
+    return not simple
+
+
+def gen_program_multi(rng, ternary):
+    ar = 3 if ternary else 2
+    K = ["k"] if ternary else []
+    names = K + ["x", "y"]
+    rels = [("tr", ar, TRREL), ("e", ar, "rel")]
+    rules = [rule([("tr", names)], [clause("e", names)])]
+    meta = dict(ternary=ternary, readers=[], recursion=[], rev_delta_rules=[], family="multi")
+    used = set()
+
+    def need(name, arity):
+        if name not in used:
+            used.add(name)
+            rels.append((name, arity, "rel"))
+        return name
+
+    cols = list(range(ar))
+    subsets = [[c for c in cols if (m >> c) & 1] for m in range(1 << ar)]
+    rec = rng.choice(["none", "none", "swap", "swap", "via_g", "self3"])
+    nread = rng.randint(2, 3)
+    fb_at = rng.randrange(nread) if rec in ("swap", "via_g") else None
+    for j in range(nread):
+        # the keyed view under test: columns 1,2 bound / key free is the view with a heuristic; favour it
+        if ternary and rng.random() < 0.45:
+            S = [1, 2]
+        else:
+            S = rng.choice(subsets)
+        shape = rng.choice(["unary", "joint+filter", "cond", "gen", "letfirst"])
+        trc = clause("tr", names)
+        svars = [names[c] for c in S]
+        pre, post = [], []
+        if shape == "unary":
+            for i_, x_ in enumerate(svars):
+                pre.append(clause(need("p%d_%d" % (j, i_), 1), [x_]))
+            while len(pre) + len(post) < 2:
+                free = [x_ for x_ in names if x_ not in svars] or names
+                post.append(clause(need("h%d_%d" % (j, len(post)), 1), [rng.choice(free)]))
+        elif shape == "joint+filter":
+            if svars:
+                pre.append(clause(need("q%d" % j, len(svars)), svars))
+            post.append(clause(need("h%d_0" % j, 1), [rng.choice(names)]))        # after tr: bound whatever S is
+            if not svars:
+                post.append(clause(need("h%d_1" % j, 1), [rng.choice(names)]))
+        elif shape == "cond":
+            # two clauses separated by standalone condition items: not a simple join
+            if not svars:
+                svars, S = [names[-1]], [ar - 1]
+            pre.append(clause(need("q%d" % j, len(svars)), svars))
+            a = rng.choice(svars)
+            kind = rng.choice(["if_le", "let", "let_lt", "let_ne"])
+            if kind == "if_le":
+                pre.append(("cond", ("if", "le", [a, a])))
+            else:
+                pre.append(("cond", ("let", a + "_up", "incs", [a])))
+                if kind != "let":
+                    pre.append(("cond", ("if", kind[4:], [a, a + "_up"])))
+        elif shape == "gen":
+            # a generator binds one of the columns: `q(x), for y in 0..3, tr(k, x, y)` (generator between the two
+            # clauses: not a simple join) or `for y in 0..3, q(x), tr(k, x, y), h(..)` (generator first, three clauses)
+            if not svars:
+                svars, S = [names[-1]], [ar - 1]
+            gvar = svars[-1]
+            rest_ = svars[:-1]
+            others = [x_ for x_ in names if x_ != gvar]
+            if rest_ and rng.random() < 0.5:
+                pre += [clause(need("q%d" % j, len(rest_)), rest_), ("gen", gvar, "range3", [])]
+            else:
+                pre.append(("gen", gvar, "range3", []))
+                if rest_:
+                    pre.append(clause(need("q%d" % j, len(rest_)), rest_))
+                    post.append(clause(need("h%d_0" % j, 1), [rng.choice(others)]))
+                else:
+                    post += [clause(need("h%d_0" % j, 1), [rng.choice(others)]), clause(need("h%d_1" % j, 1), [rng.choice(names)])]
+        else:   # letfirst: a let attached to the first clause switches the simple join off
+            if not svars:
+                svars, S = [names[-1]], [ar - 1]
+            q = clause(need("q%d" % j, len(svars)), svars, [("let", "w%d" % j, "incs", [svars[0]])])
+            pre.append(q)
+        body = pre + [trc] + post
+        # the tagged clause may also come first (simple-join start of a longer rule) or in the middle
+        if shape in ("unary", "joint+filter") and rng.random() < 0.35:
+            cl = [b for b in body]
+            cl.remove(trc)
+            pos = rng.randrange(len(cl))
+            body = cl[:pos] + [trc] + cl[pos:]
+        if not shortcut_applies(body):
+            body.append(clause(need("h%d_9" % j, 1), [rng.choice(names)]))
+        assert shortcut_applies(body), body
+        out = need("o%d" % j, ar)
+        rules.append(rule([(out, names)], body))
+        tpos = body.index(trc)
+        meta["readers"].append(dict(declared_bound=index_columns(body, tpos), bound=index_columns(body, tpos), shape=shape, clauses=sum(1 for b in body if b[0] == "clause"),
+                                    shortcut=shortcut_applies(body), feedback=(fb_at == j)))
+        if fb_at == j:
+            if rec == "swap":
+                rules.append(rule([("tr", K + ["y", "x"])], [clause(out, names)]))
+                meta["recursion"].append("reader o%d feeds tr back reversed: tr(..y,x) <-- o%d(..x,y)" % (j, j))
+            else:
+                need("g", 2)
+                rules.append(rule([("tr", K + ["y", "w"])], [clause(out, names), clause("g", ["y", "w"])]))
+                meta["recursion"].append("reader o%d feeds tr back: tr(..y,w) <-- o%d(..), g(y,w)" % (j, j))
+    if rec == "self3":
+        need("f", 2)
+        need("s0", 1)
+        body = [clause("f", ["y", "z"]), clause("s0", ["x"]), clause("tr", K + ["x", "y"])]
+        rng.shuffle(body)
+        rules.append(rule([("tr", K + ["x", "z"])], body))
+        meta["recursion"].append("three-clause recursive rule: tr(..x,z) <-- " + ", ".join(b[1] for b in body))
+    meta["rec"] = "multi/" + rec
+    meta["rev_delta_rules"] = rev_delta_rules(dict(rels=rels, rules=rules))
+    return dict(prog=dict(rels=rels, rules=rules), meta=meta)
+
+
+def gen_input_heavy(rng, p, ternary, heavy=True):
+    """many keys sharing few node values (heavy) / the small inputs of gen_input's regime (light)"""
+    heads = {h[0] for r in p["rules"] for h in r["heads"]}
+    dom = rng.choice([2, 2, 3])
+    keys = (rng.choice([4, 9, 16, 25, 26, 30, 36, 40, 49, 60]) if heavy else rng.choice([1, 2, 3])) if ternary else 1
+    vs = list(range(dom))
+    # the pattern every key draws its edges from: 1-3 edges over the node values
+    pat = sorted({(rng.choice(vs), rng.choice(vs)) for _ in range(rng.randint(1, 3))})
+    full = rng.random() < 0.5           # every key gets the whole pattern
+    inp = {}
+    for name, ar, kind in p["rels"]:
+        if name in heads:
+            continue
+        ts = []
+        if name == "e":
+            for k in range(keys):
+                es = pat if full else [e_ for e_ in pat if rng.random() < 0.7]
+                for (a, b) in es:
+                    ts.append(((k,) if ternary else ()) + (a, b))
+        elif name in ("f", "g"):
+            for _ in range(rng.randint(0, dom)):
+                ts.append((rng.choice(vs), rng.choice(vs)))
+        else:
+            # probes / filters: which column they constrain is found from the rule that uses them
+            colkinds = probe_columns(p, name)
+            dense = rng.random() < 0.6
+            n = rng.randint(1, 4)
+            cand = list(itertools.product(*[(range(keys) if ck == "k" else range(dom + 1)) for ck in colkinds]))
+            if dense or len(cand) <= n:
+                ts = [c_ for c_ in cand if rng.random() < 0.8]
+            else:
+                ts = rng.sample(cand, n)
+        inp[name] = sorted(set(tuple(t) for t in ts))
+    return inp, "%s/keys%d/dom%d/pattern%d" % ("heavy" if heavy else "light", keys, dom, len(pat))
+
+
+def probe_columns(p, name):
+    """'k' for a column of the probe relation `name` that holds the key variable k, 'n' for a node column"""
+    for r in p["rules"]:
+        for it in r["body"]:
+            if it[0] == "clause" and it[1] == name:
+                return ["k" if (t[0] == "v" and t[1] == "k") else "n" for t in it[2]]
+    return []
+
+
+def gen_cases_multi(rng, n, first_id):
+    cases = []
+    for i in range(n):
+        ternary = i % 4 != 3
+        g = gen_program_multi(rng, ternary)
+        inputs, styles = [], []
+        for heavy in (True, True, False):
+            inp, st = gen_input_heavy(rng, g["prog"], ternary, heavy)
+            inputs.append(inp)
+            styles.append(st)
+        cases.append(dict(id="c11_%d" % (first_id + i), prog=g["prog"], meta=g["meta"], inputs=inputs, styles=styles))
+    return cases
+
+
 def gen_cases(tier, seed, prop="C11"):
+    return gen_cases_base(tier, seed, prop) + gen_cases_multi(lib.rng_for(seed, prop, "prog-multi"), 16 if tier == "quick" else 80,
+                                                              1000)
+
+
+def gen_cases_base(tier, seed, prop="C11"):
     rng = lib.rng_for(seed, prop, "prog")
     n = 30 if tier == "quick" else 300
     cases = []
